@@ -664,3 +664,124 @@ package gmars
 //@     invariant 0 - 1 <= rangeindex && rangeindex < len(s.warriors)
 //@     invariant forall j :: 0 <= j && j <= rangeindex ==> result[j] == (s.warriors[j].state == WarriorAlive)
 //@     decreases len(s.warriors) - rangeindex
+
+// ---------------------------------------------------------------------------
+// asm.go / load.go: mnemonic tables and rule-set tables (independent spec tables)
+
+//@ uf lower(s Str) Str
+//@ pure opName(o int) = ite(o == DAT, "DAT", ite(o == MOV, "MOV", ite(o == ADD, "ADD", ite(o == SUB, "SUB", ite(o == MUL, "MUL", ite(o == DIV, "DIV",
+//@      ite(o == MOD, "MOD", ite(o == CMP, "CMP", ite(o == SEQ, "SEQ", ite(o == SNE, "SNE", ite(o == SLT, "SLT", ite(o == JMP, "JMP", ite(o == JMZ, "JMZ",
+//@      ite(o == JMN, "JMN", ite(o == DJN, "DJN", ite(o == SPL, "SPL", ite(o == NOP, "NOP", "???")))))))))))))))))
+//@ pure opLower(o int) = ite(o == DAT, "dat", ite(o == MOV, "mov", ite(o == ADD, "add", ite(o == SUB, "sub", ite(o == MUL, "mul", ite(o == DIV, "div",
+//@      ite(o == MOD, "mod", ite(o == CMP, "cmp", ite(o == SEQ, "seq", ite(o == SNE, "sne", ite(o == SLT, "slt", ite(o == JMP, "jmp", ite(o == JMZ, "jmz",
+//@      ite(o == JMN, "jmn", ite(o == DJN, "djn", ite(o == SPL, "spl", ite(o == NOP, "nop", "???")))))))))))))))))
+//@ pure modName(md int) = ite(md == A, "A", ite(md == B, "B", ite(md == AB, "AB", ite(md == BA, "BA", ite(md == F, "F", ite(md == X, "X", ite(md == I, "I", "?")))))))
+//@ pure modLower(md int) = ite(md == A, "a", ite(md == B, "b", ite(md == AB, "ab", ite(md == BA, "ba", ite(md == F, "f", ite(md == X, "x", ite(md == I, "i", "?")))))))
+//@ pure amName(am int) = ite(am == IMMEDIATE, "#", ite(am == DIRECT, "$", ite(am == A_INDIRECT, "*", ite(am == B_INDIRECT, "@",
+//@      ite(am == A_DECREMENT, "{", ite(am == B_DECREMENT, "<", ite(am == A_INCREMENT, "}", ite(am == B_INCREMENT, ">", "?"))))))))
+//@ pure is88op(o int) = o == DAT || o == MOV || o == ADD || o == SUB || o == JMP || o == JMZ || o == JMN || o == DJN || o == CMP || o == SLT || o == SPL
+//@ pure is88mode(am int) = am == IMMEDIATE || am == DIRECT || am == B_INDIRECT || am == B_DECREMENT
+
+// the codec tables are inverse to each other (C09 / C16): printing a mnemonic and reading it back gives the same value
+//@ lemma opCodec [C09][C16]: forall o :: 0 <= o && o <= 16 ==> lower(opName(o)) == opLower(o)
+//@ lemma opInj [C09][C16]: forall a, b :: 0 <= a && a <= 16 && 0 <= b && b <= 16 && opLower(a) == opLower(b) ==> a == b
+//@ lemma modCodec [C09][C16]: forall md :: 0 <= md && md <= 6 ==> lower(modName(md)) == modLower(md)
+//@ lemma modInj [C09][C16]: forall a, b :: 0 <= a && a <= 6 && 0 <= b && b <= 6 && modLower(a) == modLower(b) ==> a == b
+//@ lemma amInj [C09][C16]: forall a, b :: 0 <= a && a <= 7 && 0 <= b && b <= 7 && amName(a) == amName(b) ==> a == b
+
+//@ extern strings.ToLower
+//@   modifies nothing
+//@   ensures result == lower(s)
+
+//@ extern fmt.Sprintf
+//@   modifies nothing
+
+//@ func (OpCode).String
+//@   panics [C16]
+//@   modifies nothing
+//@   ensures [C16][C09] result == opName(o)
+
+//@ func (OpMode).String
+//@   panics [C16]
+//@   modifies nothing
+//@   ensures [C16][C09] result == modName(m)
+
+//@ func (AddressMode).String
+//@   panics [C16]
+//@   modifies nothing
+//@   ensures [C16][C09] result == amName(m)
+
+//@ func getOpCode
+//@   panics [C05][C10]
+//@   modifies nothing
+//@   ensures [C09][C06] result.1 == nil ==> result.0 <= 16 && opLower(result.0) == lower(op)
+//@   ensures [C09] (exists o :: 0 <= o && o <= 16 && opLower(o) == lower(op)) ==> result.1 == nil
+
+//@ func getOpCode88
+//@   panics [C05][C10]
+//@   modifies nothing
+//@   ensures [C09][C06][C10] result.1 == nil ==> is88op(result.0) && opLower(result.0) == lower(op)
+//@   ensures [C09] (exists o :: is88op(o) && opLower(o) == lower(op)) ==> result.1 == nil
+
+//@ func getOpMode
+//@   panics [C05][C10]
+//@   modifies nothing
+//@   ensures [C09][C06] result.1 == nil ==> result.0 <= 6 && modLower(result.0) == lower(opModeStr)
+//@   ensures [C09] (exists md :: 0 <= md && md <= 6 && modLower(md) == lower(opModeStr)) ==> result.1 == nil
+
+//@ func getAddressMode
+//@   panics [C05][C10]
+//@   modifies nothing
+//@   ensures [C09][C06] result.1 == nil ==> result.0 <= 7 && amName(result.0) == modeStr
+//@   ensures [C09] (exists am :: 0 <= am && am <= 7 && amName(am) == modeStr) ==> result.1 == nil
+
+//@ func getAddressMode88
+//@   panics [C05][C10]
+//@   modifies nothing
+//@   ensures [C09][C06][C10] result.1 == nil ==> is88mode(result.0) && amName(result.0) == modeStr
+//@   ensures [C09] (exists am :: is88mode(am) && amName(am) == modeStr) ==> result.1 == nil
+
+// default modifiers of the '94 dialect (NOP -> .B is this project's pinned dialect, see DESIGN.md)
+//@ pure default94(op int, am int, bm int) = ite(op == DAT, F,
+//@      ite(op == MOV || op == SEQ || op == SNE || op == CMP, ite(am == IMMEDIATE, AB, ite(bm == IMMEDIATE, B, I)),
+//@      ite(op == ADD || op == SUB || op == MUL || op == DIV || op == MOD, ite(am == IMMEDIATE, AB, ite(bm == IMMEDIATE, B, F)),
+//@      ite(op == SLT, ite(am == IMMEDIATE, AB, B), B))))
+//@ func getOpMode94
+//@   panics [C05][C06]
+//@   modifies nothing
+//@   ensures [C03][C06] Op <= 16 ==> result.1 == nil && result.0 == default94(Op, AMode, BMode)
+//@   ensures [C06] result.0 <= 6
+
+// ICWS'88: operand combinations the standard allows and the modifier it implies
+//@ pure combo88(op int, am int, bm int) = ite(op == DAT, (am == IMMEDIATE || am == B_DECREMENT) && (bm == IMMEDIATE || bm == B_DECREMENT),
+//@      ite(op == MOV || op == CMP || op == ADD || op == SUB, bm != IMMEDIATE,
+//@      ite(op == JMP || op == JMZ || op == JMN || op == DJN || op == SPL, am != IMMEDIATE, true)))
+//@ pure mod88(op int, am int) = ite(op == DAT, F, ite(op == MOV || op == CMP, ite(am == IMMEDIATE, AB, I),
+//@      ite(op == ADD || op == SUB, ite(am == IMMEDIATE, AB, F), ite(op == SLT, ite(am == IMMEDIATE, AB, B), B))))
+//@ pure legal88(x Instruction) = is88op(x.Op) && is88mode(x.AMode) && is88mode(x.BMode) && combo88(x.Op, x.AMode, x.BMode) && x.OpMode == mod88(x.Op, x.AMode)
+//@ func getOpModeAndValidate88
+//@   panics [C05][C06][C10]
+//@   modifies nothing
+//@   ensures [C06][C10] result.1 == nil ==> is88op(Op) && combo88(Op, AMode, BMode) && result.0 == mod88(Op, AMode)
+//@   ensures [C09] is88op(Op) && combo88(Op, AMode, BMode) ==> result.1 == nil
+
+// numbers
+//@ uf atoi(s Str) int
+//@ extern strconv.ParseInt
+//@   modifies nothing
+//@   ensures result.1 == nil ==> result.0 == atoi(s)
+//@   ensures result.1 == nil && bitSize == 64 ==> 0 - 9223372036854775808 <= result.0 && result.0 <= 9223372036854775807
+//@   ensures result.1 == nil && bitSize == 32 ==> 0 - 2147483648 <= result.0 && result.0 <= 2147483647
+
+//@ func parseAddress
+//@   panics [C10][C05]
+//@   requires 1 <= coresize && coresize <= 9223372036854775807
+//@   modifies nothing
+//@   ensures [C10][C06][C09] result.1 == nil ==> result.0 < coresize
+//@   ensures [C09] result.1 == nil && atoi(input) >= 0 ==> result.0 == atoi(input) % coresize
+//@   ensures [C09] result.1 == nil && atoi(input) < 0 ==> (result.0 + (0 - atoi(input))) % coresize == 0
+
+//@ func signedAddress
+//@   panics [C16]
+//@   modifies nothing
+//@   ensures [C16] a < coresize && coresize <= 4294967296 ==> (result % coresize == a || result + coresize == a) && 0 - (coresize / 2) - 1 <= result && result <= coresize / 2
